@@ -60,6 +60,16 @@ def run(ck):
             fq = strip_tmpl(a0.get("f") or "")
             if fq:
                 EFD.add(fq)
+            elif re.match(r"^[\w.>-]+?(?:\.|->)(\w+)\(\)$", (a0.get("t") or "").strip()):
+                # `poller.addFd(holder.get(), ..)`: the field(s) the accessor returns
+                nm_ = re.match(r"^[\w.>-]+?(?:\.|->)(\w+)\(\)$", (a0.get("t") or "").strip()).group(1)
+                for c2_ in fb.events("call"):
+                    if (c2_.get("callee") or "").rsplit("::", 1)[-1] == nm_ and (c2_.get("t") or "").strip() == (a0.get("t") or "").strip():
+                        for g_ in prog.resolve_call(c2_):
+                            for r_ in g_.events("return"):
+                                for x_ in (r_.get("refs") or []):
+                                    if x_.startswith("f:"):
+                                        EFD.add(strip_tmpl(x_[2:]))
             elif a0.get("v"):
                 # `const int fd = holder.open(); poller.addFd(fd, ..)`: the field(s) the holder's member hands back
                 for d_ in fb.events("decl"):
@@ -70,7 +80,26 @@ def run(ck):
                                     if x_.startswith("f:"):
                                         EFD.add(strip_tmpl(x_[2:]))
     ck.require(EFD, "PollableQueue::bind does not register a member descriptor with the poller")
-    is_efd = lambda a_: strip_tmpl((a_ or {}).get("f") or "") in EFD
+    # accessors that hand the descriptor out (`int get() const { return fd_; }` of a holder class)
+    EFD_GET = set()
+
+    def _returns_efd(g_):
+        rs_ = list(g_.events("return"))
+        return bool(rs_) and all(any(x_.startswith("f:") and strip_tmpl(x_[2:]) in EFD for x_ in (r_.get("refs") or [])) for r_ in rs_)
+
+    def _refresh_getters():
+        for g_ in prog.funcs.values():
+            if g_.blocks and not g_.params and g_.cls and _returns_efd(g_):
+                EFD_GET.add(strip_tmpl(g_.base))
+
+    def is_efd(a_):
+        a_ = a_ or {}
+        if strip_tmpl(a_.get("f") or "") in EFD:
+            return True
+        # `event.get()`: a call of such an accessor written in place of the member
+        m_ = re.match(r"^(?:this->)?[\w.>-]+?(?:\.|->)(\w+)\(\)$", (a_.get("t") or "").strip())
+        return bool(m_) and any(x_.rsplit("::", 1)[-1] == m_.group(1) for x_ in EFD_GET)
+    _refresh_getters()
 
     # ---------------- R7: one eventfd per pollable queue ----------------
     ck.rule("C13-R7", "D who-may-write (origin of the notification descriptor)",
@@ -91,7 +120,11 @@ def run(ck):
         stores = [(e, e["lhs"].get("f"), e.get("const"), e.get("rhs") or {}) for e in f.events("assign") if strip_tmpl(e["lhs"].get("f") or "") in EFD]
         stores += [(e, e.get("f"), e.get("const"), {"t": e.get("t"), "v": e.get("v")}) for e in f.events("init") if strip_tmpl(e.get("f") or "") in EFD]
         for e, fld, const, rhs in stores:
-            ok = const == -1
+            ok = const == -1 or (rhs.get("t") or "").replace(" ", "") in ("-1", "") and e["k"] == "init" and const in (-1, None) and not rhs.get("v")
+            # (a move between two holders: `fd_ = other.fd_; other.fd_ = -1;` -- the descriptor changes owner, it is not shared)
+            if not ok and strip_tmpl(rhs.get("f") or "") in EFD and (rhs.get("t") or "") != ((e.get("lhs") or {}).get("t") or ""):
+                src_t = (rhs.get("t") or "").strip()
+                ok = any(((x_.get("lhs") or {}).get("t") or "").strip() == src_t and x_.get("const") == -1 for x_ in cfg.events_after(f, e) if x_["k"] == "assign")
             if not ok and rhs.get("v"):
                 ds = [d for d in f.events("decl") if d.get("var") == rhs.get("v")]
                 ok = bool(ds) and all(is_libc({"k": "call", "callee": d.get("icall"), "cfile": ""}, "eventfd") or fresh_eventfd_at(f, d.get("l")) for d in ds)
